@@ -332,9 +332,44 @@ def rule_r3(F, rep):
         rep.violation(R, "%s|crop" % fn.q, "trace cropping slices are not confined to the `stack.len() > max_trace` branch", fn.loc)
 
 
+def rule_r4(F, rep):
+    from . import prov as _prov
+    R = rep.rule("C16.R4", "the renderer is called within its contract: the line-number margin handed to "
+                 "sourceannot's Annotations::render is the maximum of Annotations::max_line_no_width() over the sources "
+                 "being rendered (render subtracts each line number's width from it; a smaller margin underflows and the "
+                 "diagnostic is never printed)")
+    REND = "<sourceannot::annots::Annotations>::render"
+    MAXW = "<sourceannot::annots::Annotations>::max_line_no_width"
+    n = 0
+    for fn in F.fn_list:
+        if fn.crate.name != "rsjsonnet_front":
+            continue
+        for bb, t in fn.body.calls():
+            if (callee_name(t) or "") != REND:
+                continue
+            n += 1
+            P = _prov.Prov(F, fn.body)
+            widths = [x for x in t["xs"] if "t" in x and fn.body.ty(x["t"])["s"] == "usize"]
+            org = P.origins_op(widths[0]) if widths else set()
+            asks = any((callee_name(t2) or "") == MAXW for g in [fn] + list(F.closures_of(fn)) for _, t2 in g.body.calls())
+            okorg = bool(org) and all((o[0] == "const") or (o[0] == "call" and (o[1].endswith("Iterator::max") or o[1].endswith("Iterator>::max")
+                                                                                or o[1] == MAXW or o[1].endswith("cmp::max") or o[1].endswith("Ord>::max")))
+                                      for o in org) and any(o[0] == "call" for o in org)
+            ok = asks and okorg
+            rep.ob(R, "%s|render-margin" % fn.q, ok, {"fn": fn.q, "margin_origins": sorted(map(str, org)), "asks_max_line_no_width": asks})
+            if not ok:
+                rep.violation(R, "%s|render-margin" % fn.q,
+                              "%s passes Annotations::render a margin width that is not the maximum of max_line_no_width() "
+                              "(origins %s): a span ending on a line with more digits than the margin allows makes the renderer "
+                              "underflow" % (fn.q, sorted(map(str, org))), fn.body.span(t["sp"]))
+    rep.floor(R, n, 1, "Annotations::render call sites")
+    rep.trust("sourceannot 0.3: Annotations::render(max_line_no_width, ..) requires max_line_no_width >= self.max_line_no_width()")
+
+
 def run(F, rep, tier):
     rule_r1(F, rep)
     rule_r2(F, rep)
     rule_r3(F, rep)
+    rule_r4(F, rep)
     rep.assume("the SpanId bit-packing round trip, line/column computation and rendering inside `sourceannot` are not decided")
     return EXPLANATION
